@@ -27,6 +27,7 @@ TECHNIQUE = ("runtime monitoring: trace monitor over the rewrite steps (model of
              "legal exchanges + own snake predicate), generic tensor semantics "
              "on every step, independent yankable-pair detector on the result")
 RULE = ("case = rigid diagram over names x, y, z with winding numbers -3..3 "
+        "(one case in six over the self-adjoint type PRO(1), where x.l == x) "
         "built from random boxes and decorated with left/right snakes at random "
         "wires and depths, nested snakes, double transposes of boxes, "
         "cap-then-cup loops, cap/cup pairs whose adjoints do NOT match, then "
@@ -50,11 +51,27 @@ ASSUMPTIONS = [
     "disconnected = the box graph (box-to-box wires) has more than one component"]
 STEP_CAP = 600
 _KIT = None
+_PRO_KIT = None
+
+
+class ProKit(kits.RigidKit):
+    """ rigid diagrams over PRO types: every wire is its own adjoint. """
+    name = "rigid-pro"
+
+    def atom(self, rng):
+        return self.mod.PRO(1)
+
+    def unit(self):
+        return self.mod.PRO(0)
+
+    def data(self, rng):
+        return None
 
 
 def setup(ctx):
-    global _KIT
+    global _KIT, _PRO_KIT
     _KIT = kits.RigidKit(zmax=2, structural=False)
+    _PRO_KIT = ProKit(zmax=0, structural=False)
 
 
 # -- generator ---------------------------------------------------------------------
@@ -126,6 +143,33 @@ def decorate(rng, kit, d, log):
     pair = mod.Cap(t, t.l) >> mod.Id(t) @ mod.Box("u", t.l, t.l)\
         >> mod.Cup(t, t.l)
     return d @ pair if rng.random() < .5 else pair @ d
+
+
+def decorate_pro(rng, kit, d, log):
+    """ Decorations over the self-adjoint type PRO(1) (x.l == x == x.r). """
+    mod = kit.mod
+    x = mod.PRO(1)
+    choice = rng.randrange(6)
+    if choice <= 2:
+        left = rng.random() < .5
+        log.append("pro-left-snake" if left else "pro-right-snake")
+        return insert_on_wire(rng, mod, d, lambda t: snake(mod, x, left)[0])
+    if choice == 3:
+        log.append("pro-loop")
+        return insert_on_wire(
+            rng, mod, d, lambda t: mod.Id(x) @ (mod.Cap(x, x) >> mod.Cup(x, x)))
+    if choice == 4:
+        log.append("pro-traced-box")
+        u = mod.Box("u", x, x)
+        side = rng.random() < .5
+        inner = (mod.Id(x) @ u) if side else (u @ mod.Id(x))
+        return insert_on_wire(
+            rng, mod, d,
+            lambda t: mod.Id(x) @ (mod.Cap(x, x) >> inner >> mod.Cup(x, x)))
+    log.append("pro-cap-box-cup")
+    v = mod.Box("v", x @ x, x @ x)
+    piece = mod.Cap(x, x) >> v >> mod.Cup(x, x)
+    return d @ piece if rng.random() < .5 else piece @ d
 
 
 def scramble(rng, d, moves):
@@ -219,12 +263,13 @@ def snakes_left(d):
 
 
 def run_case(rng, ctx):
-    kit = _KIT
+    pro = ctx.index % 6 == 5
+    kit = _PRO_KIT if pro else _KIT
     mod = kit.mod
     base = kit.rand_diagram(rng, rng.randint(0, 4), width=rng.randint(1, 3), raw=False)
     log, d = [], base
     for _ in range(rng.choice([1, 1, 2, 2, 3])):
-        d = decorate(rng, kit, d, log)
+        d = decorate_pro(rng, kit, d, log) if pro else decorate(rng, kit, d, log)
         if len(d) > 22:
             break
     width = max([len(d.dom)] + [len(l) + len(b.cod) + len(r) for l, b, r in d.layers])
